@@ -1,5 +1,7 @@
 import EdzedModel.Basic.Val
+import EdzedModel.Burst
 import EdzedModel.Counter
+import EdzedModel.Drv.Burst
 import EdzedModel.Drv.Counter
 import EdzedModel.Drv.Simulate
 import EdzedModel.Gen.Constants
